@@ -69,6 +69,18 @@ func Curated() []*Prog {
 			Tasks: [][]Op{{PubOp(0)}, {UnsubOp(0, 0), SubOp(0, 0, once), CountOp(0)}}},
 		{Name: "once-async-resubscribed-while-firing", Pre: []Op{SubOp(0, 0, onceAs)},
 			Tasks: [][]Op{{PubOp(0)}, {UnsubOp(0, 0), SubOp(0, 0, onceAs)}}},
+		// a publish whose context another task cancels part-way: whatever it delivered, the
+		// Once handlers it fired are retired and the registry is what the calls made it
+		{Name: "publish-cancelled-part-way-through-its-handlers", Pre: []Op{SubOp(0, 0, once), SubOp(0, 1, plain), SubOp(0, 2, plain)},
+			Tasks: [][]Op{{{K: PubRace, Ty: 0}}, {{K: CancelCtx}}, {CountOp(0)}}},
+		{Name: "publish-cancelled-part-way-once-in-the-middle", Pre: []Op{SubOp(0, 1, plain), SubOp(0, 0, once), SubOp(0, 2, async), SubOp(0, 3, once)},
+			Tasks: [][]Op{{{K: PubRace, Ty: 0}}, {{K: CancelCtx}, PubOp(0)}}},
+		// handlers that panic on one event (the bus recovers): the event after it is delivered
+		// like any other, to a Sequential handler too
+		{Name: "handlers-panic-on-one-event", Pre: []Op{SubOp(0, 0, evt.SubOpts{Sequential: true}), SubOp(0, 1, plain), SubOp(0, 2, asyncSeq)},
+			Tasks: [][]Op{{{K: Pub, Ty: 0, Panic: true}, PubOp(0)}, {PubOp(0)}}},
+		{Name: "once-handler-panics", Pre: []Op{SubOp(0, 0, once), SubOp(0, 1, onceAs), SubOp(0, 2, plain)},
+			Tasks: [][]Op{{{K: Pub, Ty: 0, Panic: true}}, {PubOp(0), CountOp(0)}}},
 		{Name: "subscribe-while-publishing-to-nobody", Tasks: [][]Op{{SubOp(0, 0, plain), PubOp(0)}, {PubOp(0)}, {SubOp(0, 1, filt), PubOp(0)}}},
 	}
 }
